@@ -198,11 +198,12 @@ _ADDED = {
  "C04": " SubScope children are closed and retired by a pass, then their parents and siblings emit again (tags of a scope never change over its lifetime).",
  "C07": " A SubScope child of a tagged scope is closed and retired while its parent, a sibling and a later scope keep emitting; free-running: four goroutines close one sub-scope handle at the same moment, the root closes its sub-scopes concurrently.",
  "C08": " A Close while a periodic pass is between two metrics of the root; scopes derived after Close from a sub-scope handle obtained before it.",
- "C09": " A closed child re-acquired by two goroutines at once; first use of sanitized names; histograms created at the same moment in different scopes from specifications whose bucket-cache identities collide.",
+ "C09": " A closed child re-acquired by two goroutines at once; first use of sanitized names; histograms created at the same moment in different scopes from specifications whose bucket-cache identities collide; free-running: the first metrics of a fresh sub-scope requested by six goroutines at once, concurrent Record on one timer, the root's own identity asked for again under a sanitizer.",
  "C11": " Derivations that lead back to the root's own identity; first use of fresh counter names by all recorders at the same moment.",
- "C12": " Counters whose names run through a range of lengths so that one is charged exactly the free bytes of a packet; a first destination nobody listens on.",
+ "C12": " Counters whose names run through a range of lengths so that one is charged exactly the free bytes of a packet; a first destination nobody listens on; IncludeHost and custom bucket tag names.",
  "C13": " Tag sets of 10 / 11 / 12 / 25 tags; plain handles shared by all goroutines and a hammer phase of 120 000 distinct values through one handle (duplicates counted per destination); a first destination nobody listens on.",
- "C15": " A destination that stops listening (sends are refused now and then, nothing arrives): the buffer is still empty after every Flush.",
+ "C15": " A destination that stops listening (sends are refused now and then, nothing arrives): the buffer is still empty after every Flush; a datagram that no Flush accounts for (e.g. sent by Close) is a violation.",
+ "C14": " A panic raised inside the m3 package that kills the driver process (a goroutine of the reporter nobody can recover) is reported as NeverPanics with its stack.",
  "C16": " Every bucket of a histogram is charged for its own range tag (tags of different lengths).",
  "C17": " Duration specifications with a negative and a zero bound; Register* calls, label-name collisions, concurrent first use; bursts of up to 200 000 samples for one bucket in one pass.",
  "C18": " Bounds of a minute and more; one reporter used by several goroutines at once; a client that answers some calls with an error.",
